@@ -15,7 +15,7 @@ DummyBad == [base |-> "?", kty |-> NONE, bits |-> 0, crv |-> NONE, var |-> "a", 
              use |-> NONE, ops |-> <<>>, defect |-> <<>>, bad |-> 1]
 DocKds(op) == IF op.doc = "single" THEN SubSeq(op.keys, 1, 1)
               ELSE IF op.doc \in {"keys", "keysextra"} THEN op.keys
-              ELSE IF op.doc \in {"nonjson", "anyraw"} THEN <<>> ELSE <<DummyBad>>
+              ELSE IF op.doc \in {"nonjson", "anyraw", "allbad"} THEN <<>> ELSE <<DummyBad>>
 
 IStep(op) ==
   CASE op.op = "Clock" -> Clock(op.now) /\ obs' = [k |-> "other"]
